@@ -152,6 +152,24 @@ Theorem C12_no_transplant : forall recover st m k g0 o0 sig orc,
 Proof. exact no_transplant. Qed.
 Print Assumptions C12_no_transplant.
 
+(* ---- genesis export + import ---- *)
+
+Theorem C12_import_at_most_one : forall st, NoDup (map fst (import_conf st)).
+Proof. exact import_nodup. Qed.
+Print Assumptions C12_import_at_most_one.
+
+Theorem C12_import_sound : forall st, bridgers_resolve_to_key st ->
+  forall e, In e (import_conf st) -> In e (st_conf st).
+Proof. exact import_sound. Qed.
+Print Assumptions C12_import_sound.
+
+(* the guard is needed: a released bridger account taken over by another oracle *)
+Theorem C12_import_misattributes_after_bridger_reuse :
+  import_conf ex_reuse_state = [(((KOracleSet, 0, 3), 12), ex_msg)] /\ m_external ex_msg = 31 /\
+  assoc Z.eqb 12 (st_oracles ex_reuse_state) = Some {| o_bridger := 21; o_external := 32 |}.
+Proof. exact import_misattributes_after_bridger_reuse. Qed.
+Print Assumptions C12_import_misattributes_after_bridger_reuse.
+
 (* ---- who signs the transaction ---- *)
 
 Theorem C12_tx_signer_is_bridger : forall recover unpacks checks st s t k,
